@@ -114,3 +114,42 @@ for _tag, _ents in (('nodes', ['k_rot_matrix', 'k_rot_nodes']), ('cell', ['k_rot
                    'a matrix within 1e-10 of the identity counts as "not rotated" (the library\'s own flag): the identity is then the matrix in force',
                    'coordinates below 1e30 in absolute value'],
       stubs=['cos/sin: uninterpreted + Pythagoras axiom (symex libm_axioms); on concrete arguments (validation runs) a rational point of the unit circle within 1e-12 of the libm values'])
+
+
+# ---------------------------------------------------------------- C16.f (builder2: coordinates stored / reported by a grid Db)
+_DBCOORDTUS = ['src/Db/DbGrid.cpp', 'src/Db/Db.cpp', 'src/Basic/Grid.cpp', 'src/Basic/Rotation.cpp', 'src/Basic/Utilities.cpp', 'src/Basic/AStringable.cpp']
+for _nd, _nxs, _tiers in ((2, (3, 2, 1), ('quick', 'thorough')), (3, (2, 3, 2), ('quick', 'thorough')), (3, (4, 3, 3), ('thorough',))):
+    K('C16.f.%d.%d%d%d' % ((_nd,) + _nxs), property='C16', engine='symex', harness='C16/dbcoord.cpp', entries=['k_stored_coordinates', 'k_reported_coordinates'],
+      tus=_DBCOORDTUS, defines={'all': {'VF_ND': _nd, 'VF_NX0': _nxs[0], 'VF_NX1': _nxs[1], 'VF_NX2': _nxs[2]}}, tiers=_tiers,
+      bounds={'quick': 'ndim = %d, concrete node counts %s, unrotated; origin and mesh arbitrary reals; coordinate columns starting at column 0 or 1 (rank column asked for or not); every node' % (_nd, 'x'.join(str(v) for v in _nxs[:_nd]))},
+      timeout_ms={'quick': 120000, 'thorough': 600000}, validate={'quick': 30, 'thorough': 60}, validate_doubles='int',
+      what='DbGrid::_createGridCoordinates (the step of DbGrid::reset(..., flagAddCoordinates) that fills the coordinate columns) with the real Grid::iteratorInit / iteratorNext / '
+           'indicesToCoordinateInPlace / Rotation::rotateDirect (identity path): row r of column icol0 + d is written exactly once with x0[d] + index_d(r)*dx[d] '
+           '(indices = mixed-radix digits of r, first dimension fastest), nothing else is written, the X locators go to these columns; '
+           'DbGrid::getCoordinate / DbGrid::getNDim / Grid::getCoordinate / rankToIndice: the reported coordinate of node r is the same value, TEST beyond the space dimension',
+      out='the rest of DbGrid::reset (_clear, gridDefine, resetDims, _loadData, names, locator tables: Db machinery of C07); rotated grids (the Grid functions used here are '
+          'decided with rotation in C16.d); floating-point rounding (both sides compute i*dx + x0 in the same order); user-supplied iterator orders (Grid::iteratorInit(order))',
+      assumptions=['real-arithmetic reading of i*dx + x0',
+                   'DbGrid object is raw storage + the real DbGrid vtable; _grid: _nDim, _nx, _x0, _dx, _rotation._flagRot = false, iterator and work vectors initialised'],
+      stubs=['Db::getSampleNumber -> number of nodes', 'Db::setArray(iech, iuid, value) -> recorded in a harness table with a write counter per cell',
+             'Db::_setNameByColIdx -> no-op; getLocatorName -> empty string (column names are not part of the kernel)',
+             'Db::setLocatorsByUID(number, iuid, type, index, clean) -> records its arguments (locator tables are C07)'])
+
+
+# ---------------------------------------------------------------- C16.g (builder2: point-to-cell glue of the migration grid -> points)
+_MIGTUS = ['src/Calculators/CalcMigrate.cpp', 'src/Db/Db.cpp', 'src/Db/DbGrid.cpp', 'src/Basic/Grid.cpp', 'src/Basic/Utilities.cpp', 'src/Basic/AStringable.cpp']
+for _np, _ng, _tiers in ((3, 4, ('quick', 'thorough')), (4, 6, ('thorough',))):
+    K('C16.g.%d.%d' % (_np, _ng), property='C16', engine='symex', harness='C16/migrate.cpp', entry='k_grid_to_point', tus=_MIGTUS,
+      defines={'all': {'VF_ND': 2, 'VF_NP': _np, 'VF_NG': _ng}}, tiers=_tiers,
+      bounds={'quick': '2-D; %d points with arbitrary integer coordinates |x| <= 1024 (coincident points allowed), any selection mask; grid of %d nodes with arbitrary values (TEST allowed); '
+                       'coordinateToRank = an arbitrary function of the coordinates into {-1, 0..%d}; any attribute rank; no maximum distance' % (_np, _ng, _ng - 1)},
+      timeout_ms={'quick': 120000, 'thorough': 600000}, validate={'quick': 30, 'thorough': 60}, validate_doubles='int',
+      what='CalcMigrate::_migrateGridToPoint + st_locate_point_on_grid (CalcMigrate.cpp) with the real Db::hasLargerDimension, DbGrid::getNDim, FFFF: an active point receives the grid value '
+           'stored at the rank coordinateToRank returns for the point\'s own coordinates; a masked point or a point reported outside the grid (rank < 0) receives TEST; '
+           'coordinateToRank is only asked about coordinates of points of the Db; the value is read in the migrated attribute of the grid',
+      out='the geometric point-to-cell rule itself (Grid::coordinateToRank: C16.b, C16.d); the maximum-distance filter (dmax non empty: distance_inter, st_larger_than_dmax); point and grid of '
+          'different space dimensions; the other migration directions (point -> grid, grid -> grid: nearest-point searches); expansion / interpolation options',
+      assumptions=['Db and DbGrid objects are raw storage + their real vtables; DbGrid::_grid._nDim initialised'],
+      stubs=['Grid::coordinateToRank -> arbitrary function of the coordinates: the symbolic answer R[k] of the first point k whose coordinates equal the argument (-1 and a counter if none)',
+             'Db::getNDim -> 2; Db::getSampleNumber -> number of points; Db::isActive -> symbolic mask; Db::getCoordinate / getCoordinatesPerSampleInPlace -> symbolic coordinates of the point',
+             'Db::getArray(iech, iuid) -> symbolic grid value V[iech] (asserts that the grid and the migrated attribute are addressed)'])
